@@ -34,6 +34,7 @@ package bleve
 //@ func newSearchHitSorter
 //@   props C09
 //@   mode int
+//@   requires forall(k, 0, len(sort), sort[k] != nil)
 //@   ensures result != nil && fresh(result) && result.hits == hits && result.sort == sort && len(result.cachedScoring) == len(sort) && len(result.cachedDesc) == len(sort)
 
 // The re-sort of the merged hits uses the same comparator as every shard (C06): Less(i,j) is
